@@ -46,10 +46,10 @@ def scenarios(wd):
                         "scan 0 1 mem - - -", "sdestroy 0", "rdestroy 0"]
     S["regex_heavy"].insert(1, "cdefine 0 s ext 6161626262")
     import base64 as _b64
-    enc = lambda t, i: _b64.b64encode(b"Z" * i + t)[(4 if i else 0):]
+    enc = lambda t, i: _b64.b64encode(b"Q" * i + t + b"QQQ")        # the text at each of the three alignments, inside a longer encoding
     wide = lambda t: b"".join(bytes([c, 0]) for c in t)
     b64data = b" ".join(enc(b"This prog", i) for i in range(3)) + b" " + b" ".join(wide(enc(b"This prog", i)) for i in range(3)) + b" " + enc(b"2nd text", 1)
-    S["base64"] = ["compiler 0", "add 0 - " + yv.hx(b'rule b { strings: $a = "This prog" base64 base64wide $b = "2nd text" base64 condition: #a == 6 and $b }'),
+    S["base64"] = ["compiler 0", "add 0 - " + yv.hx(b'rule b { strings: $a = "This prog" base64 base64wide $b = "2nd text" base64 condition: #a == 6 and #b == 1 }'),
                    "getrules 0 0", "cdestroy 0", "scanner 0 0", "data 1 " + yv.hx(b64data), "scan 0 1 mem - - -", "sdestroy 0", "rdestroy 0"]
     S["manyrules"] = ["compiler 0", "add 0 - " + yv.hx("\n".join('rule r%d : t%d { meta: i = %d strings: $a = "K%dQ" $b = { 4B %02X ?? 51 } condition: $a or $b }' % (i, i, i, i, i) for i in range(40)).encode()),
                       "getrules 0 0", "cdestroy 0", "scanner 0 0", "data 1 " + yv.hx(b"K7Q K\x05zQ K39Q"), "scan 0 1 mem - - -", "sdestroy 0", "rdestroy 0"]
